@@ -13,6 +13,7 @@ CLAUSE_PROPERTY = {
     "C01_Exact": "C01", "C01_OnlyAdded": "C01",
     "C03_Notes": "C03", "C03_Blame": "C03",
     "C05_WellFormed": "C05", "C02_Carried": "C02", "C14_Stutter": "C14",
+    "C11_NothingLost": "C11",
     "C10_Converged": "C10", "C10_NoForeign": "C10", "C10_NeverRemoved": "C10",
     "C08_NoTranscript": "C08", "C08_Masked": "C08", "C09_Overlay": "C09", "C09_Formats": "C09", "C19_Stats": "C19",
     "Twin_Obs": "C15", "Twin_Exact": "C15", "Twin_Blame": "C15",
